@@ -171,10 +171,8 @@ pub fn cap_t(c: &Capability) -> Term {
             "llgr",
             v.iter().map(|(f, fl, t)| Term::list(vec![raw_family_t(f), Term::nat(*fl), Term::nat(*t)])).collect(),
         ),
-        // host/domain strings pass through lossy UTF-8 handling; only their byte lengths are compared
-        Capability::Fqdn { hostname, domain } => {
-            Term::tag("fqdn", vec![Term::nat(hostname.len() as u64), Term::nat(domain.len() as u64)])
-        }
+        // host/domain strings pass through lossy UTF-8 handling (invalid UTF-8 => empty string); not compared
+        Capability::Fqdn { .. } => Term::atom("fqdn"),
         Capability::Unknown { code, bin } => Term::tag("unk", vec![Term::nat(*code), Term::bytes(bin)]),
     }
 }
@@ -281,6 +279,29 @@ pub fn try_parse_step(codec: &mut PeerCodec, buf: &mut BytesMut) -> Step {
     }
 }
 
+/// a byte string: one atom `x<hex>` or a list of such atoms (concatenated; long strings are split)
+pub fn bytes_of(t: &Term) -> Option<Vec<u8>> {
+    match t {
+        Term::Atom(_) => t.as_bytes(),
+        Term::List(l) => {
+            let mut v = Vec::new();
+            for x in l {
+                v.extend(x.as_bytes()?);
+            }
+            Some(v)
+        }
+    }
+}
+
+/// printing counterpart: at most 32 bytes per atom
+pub fn bytes_split_t(b: &[u8]) -> Term {
+    if b.len() <= 32 {
+        Term::bytes(b)
+    } else {
+        Term::list(b.chunks(32).map(Term::bytes).collect())
+    }
+}
+
 pub fn chunks_of(t: &Term) -> Option<Vec<Vec<u8>>> {
-    t.tagged("chunks")?.iter().map(|c| c.as_bytes()).collect()
+    t.tagged("chunks")?.iter().map(bytes_of).collect()
 }
